@@ -1238,4 +1238,6 @@ def run(chk: Check) -> None:
     single_consumption_rule(chk, "C07-D12", (PATHS,), 8)
     from rules.c10 import d5_no_live_mutation
     d5_no_live_mutation(chk, "C07-D13", (PATHS,))
+    from rules.shared import generator_calls_consumed_rule
+    generator_calls_consumed_rule(chk, "C07-D14", (PATHS,), 8)
     d4_once(chk)
